@@ -60,6 +60,7 @@ struct P {
     bool created, start_pending, active, ended; int route; void *end_value; double end_time; uint64_t end_seq;
     int generation;
     bool in_call; struct call call;
+    uint64_t buf_amt;                                  /* the amount variable of a buffer call in progress (outlives a stop) */
     bool own_res[MAXO]; uint64_t own_pool[MAXO];       /* the script's own bookkeeping, from return codes */
     uint64_t my_timers[6]; int n_my_timers;
     int steps, max_steps;
